@@ -25,7 +25,7 @@ EXPLANATION = (
     'largest table the men guard admits, aligned to slots and buckets, guarded by the size test, and placed at the top of the table.'
     ' (5) probeDTM answers only for positions without castling rights (the castle mask is tested in the probe or in the position import it requires).'
     ' Added later; (7) every adjacent-duplicate filter of the generator compares each element that has a predecessor with it, and the successor / predecessor lists are sorted before they are returned.'
-    " Added later; (8) in getUnMoves the un-capture moves the black king first and the white king last, as TBIndex::setSquare's special cases require (guard evaluated for every piece number).")
+    " Added later; (8) in getUnMoves the un-capture moves the black king first and the white king last, as TBIndex::setSquare's special cases require (guard evaluated for every piece number). (7, extended) every neighbour-list loop has such a filter, or the list is cut at std::unique where it is sorted.")
 UNDECIDED = 'exactness of the distance-to-mate values themselves (retrograde analysis over millions of positions is value-level).'
 ASSUMPTIONS = ['8-bit two\'s complement storage of PositionValue::State (S8)',
                'TBPosition index arithmetic (20*64^(N-1) positions) is read from the constructor\'s constants']
@@ -775,6 +775,18 @@ def c7_dedup_filters(fb, rep, clause):
     if rep.need(clause, cands, 'TBGenerator::generate') is None:
         return
     n = 0
+    # lists deduplicated where they are produced need no filter where they are walked: TbMoveList::sort() shrinks the list to
+    # the end returned by std::unique (adjacent duplicates of a sorted range are all duplicates)
+    srt = fb.find1('TbMoveList::sort')
+    at_source = False
+    if srt is not None and srt.has_cfg:
+        for _, _, e in srt.events():
+            if e.get('k') == 'asg' and e.get('op') == '=' and ap(e.get('l')) == 'this.size' and \
+                    any(isinstance(x, dict) and x.get('k') == 'call' and cname(x) == 'std::unique' for x in walk(e.get('r'))):
+                first_sort = [1 for _, _, e2 in srt.events() if e2.get('k') == 'call' and cname(e2) == 'std::sort']
+                at_source = bool(first_sort) and srt.path_avoiding((srt.entry, -1), lambda x, e=e: x is e, lambda x: x.get('k') == 'call' and cname(x) == 'std::sort') is None
+    if at_source:
+        rep.ob(clause, 'K12 adjacent-duplicate filter', 'TbMoveList::sort removes duplicates (sorted, then cut at the end std::unique returns), so walkers need no filter', True, srt.where, '', srt.sname)
     for f in sorted(cands, key=lambda x: x.name):
         k_site = 0
         for bid, blk in sorted(f.blocks.items()):
@@ -803,7 +815,39 @@ def c7_dedup_filters(fb, rep, clause):
                         bound = _strip12(g['r'])['cv'] + (1 if g['op'] == '>' else 0)      # comparison made for i >= bound
                 rep.ob(clause, 'K12 adjacent-duplicate filter', '%s: duplicate filter #%d compares every element that has a predecessor with it' % (f.name.replace('TBGenerator', 'TBGen'), k_site),
                        bound == k, '%s:%s' % (f.file, t.get('ln') or f.line), 'compares L[i] with L[i-%d] for i >= %s' % (k, bound), f.sname)
-    rep.floor(clause, 'adjacent-duplicate filters in TBGenerator::generate', n, 6)
+    if not at_source:
+        rep.floor(clause, 'adjacent-duplicate filters in TBGenerator::generate', n, 4)
+    # ... and every loop that walks a neighbour list in generate() has one: the list producers do not remove duplicates
+    for f in sorted(cands, key=lambda x: x.name):
+        loops = f.natural_loops()
+        k_loop = 0
+        for hdr, body in sorted(loops.items()):
+            t = f.blocks[hdr].get('term') or {}
+            c = _strip12(t.get('cond'))
+            if not (t.get('c') == 'ForStmt' and isinstance(c, dict) and c.get('k') == 'bin' and c.get('op') == '<'):
+                continue
+            r = _strip12(c.get('r'))
+            if not (isinstance(r, dict) and r.get('k') == 'call' and cname(r).split('::')[-1] == 'getSize' and 'TbMoveList' in cname(r)):
+                continue
+            lst = (_strip12(r.get('recv')) or {}).get('id')
+            k_loop += 1
+            has = False
+            for b in body:
+                bt = f.blocks[b].get('term') or {}
+                if bt.get('c') == 'IfStmt' and bt.get('cond') is not None:
+                    todo = [bt['cond']]
+                    while todo:
+                        a = _strip12(todo.pop())
+                        if isinstance(a, dict) and a.get('k') == 'bin' and a.get('op') == '&&':
+                            todo += [a.get('r'), a.get('l')]
+                        else:
+                            eq = _adjacent_eq(a)
+                            if eq is not None and eq[0] == lst:
+                                has = True
+            rep.ob(clause, 'K12 adjacent-duplicate filter', '%s: neighbour-list loop #%d skips adjacent duplicates' % (f.name.replace('TBGenerator', 'TBGen'), k_loop), has or at_source,
+                   '%s:%s' % (f.file, t.get('ln')), 'deduplicated by TbMoveList::sort' if at_source and not has else '', f.sname)
+        if f.has_cfg and len(f.blocks) > 20:
+            rep.floor(clause, 'neighbour-list loops in %s' % f.name.replace('TBGenerator', 'TBGen'), k_loop, 3)
     # adjacent comparison finds all duplicates only in a sorted list: both list producers sort before returning
     for nm in ('TBPosition::getMoves', 'TBPosition::getUnMoves'):
         g = fb.find1(nm)
